@@ -60,9 +60,25 @@ def step (m : Map) (op : Op) (failed : Option Stat) : Out × Map :=
     | none => (⟨some .errKeyNotFound, none⟩, m)
   | .removeAll => (⟨none, none⟩, [])
 
+/-- a history of the ideal map; `fs` lists, per operation, the refusal decided by the environment -/
+def run (m : Map) : List Op → List (Option Stat) → List Out × Map
+  | [], _ => ([], m)
+  | op :: ops, fs =>
+    let r := step m op (fs.headD none)
+    let rs := run r.2 ops fs.tail
+    (r.1 :: rs.1, rs.2)
+
 end Map
 
 /-- ideal set = keys of the ideal map (the C set stores a dummy value) -/
 abbrev Set := List Key
+
+namespace Set
+def insert (s : Set) (k : Key) : Set := if s.contains k then s else k :: s
+def erase (s : Set) (k : Key) : Set := s.filter (fun x => x != k)
+def size (s : Set) : Nat := s.length
+/-- well-formed: no element occurs twice -/
+def WF (s : Set) : Prop := s.Nodup
+end Set
 
 end CC.Spec
